@@ -120,8 +120,53 @@ func c06Judge(p ssoP) c06Verdict {
 	return v
 }
 
+// c06History: event histories on ONE provider. mode "primed": a valid request of SP A is accepted first,
+// then p is sent; mode "unregistered": valid request accepted, SP A is unregistered (environment event),
+// then p is sent - nothing may be accepted for SP A any more.
+func c06History(p ssoP, mode string) c06Verdict {
+	w, req, t := ssoBuild(p)
+	_, first, _ := ssoBuild(ssoP{IssuerCfg: p.IssuerCfg, SSOEp: p.SSOEp, Transport: p.Transport, Host: p.Host})
+	o1 := ssoRun(w, first)
+	v := c06Verdict{}
+	if !o1.Accepted {
+		v.Class = "history:first-request-not-accepted"
+		return v
+	}
+	if mode == "unregistered" {
+		w.Store.UnregisterSP(t.SPEntity)
+	}
+	o := ssoRun(w, req)
+	if o.Rep.Panic != "" {
+		v.Class = "history:blocked_by_panic"
+		return v
+	}
+	if !o.Accepted {
+		v.Class = "history-" + mode + ":rejected"
+		return v
+	}
+	v.Class = "history-" + mode + ":accepted"
+	v.Detail = map[string]any{"status": o.Rep.Status, "create": o.Create.String()}
+	if mode == "unregistered" {
+		if o.Create.Args[4] == "app-a" {
+			v.Clause = append(v.Clause, "accepted-for-a-service-provider-that-is-no-longer-registered")
+		}
+		return v
+	}
+	// primed: same necessary conditions as on a fresh provider
+	fresh := c06Judge(p)
+	if fresh.Class == "rejected" {
+		v.Clause = append(v.Clause, "accepted-after-an-earlier-valid-request-although-refused-on-a-fresh-provider")
+	}
+	return v
+}
+
 func c06Labels(cfg, m *devx.Space, cv, mv []int) []string {
 	return append(cfg.Labels(cv), m.Labels(mv)...)
+}
+
+type c06Replay struct {
+	P    ssoP   `json:"p"`
+	Mode string `json:"mode,omitempty"`
 }
 
 func init() { Registry["C06"] = runC06 }
@@ -129,15 +174,19 @@ func init() { Registry["C06"] = runC06 }
 func runC06(ctx Ctx) int {
 	world.PinClock()
 	run := ev.NewRun("C06")
-	run.Rule = "full product of 32 IdP configurations (issuer x SSO endpoint x transport) x every assignment of 13 message-validity dimensions with at most k deviations from the conformant default (k<=2 quick, k<=3 thorough); one execution = fresh provider + one real SSO request, clock pinned; oracle = necessary conditions of acceptance evaluated on generator ground truth"
+	run.Rule = "full product of 32 IdP configurations (issuer x SSO endpoint x transport) x every assignment of 13 message-validity dimensions with at most k deviations from the conformant default (k<=2 quick, k<=3 thorough); plus event histories on one provider for every k<=1 shape x config: (valid request accepted) ; p and (valid request accepted) ; SP unregistered ; p; one execution = fresh provider + one real SSO request, clock pinned; oracle = necessary conditions of acceptance evaluated on generator ground truth"
 	run.Assume = []string{"ambiguous inputs (trailing bytes after a DEFLATE stream, raw XML on the Redirect binding, base64 with embedded newlines) are not in the alphabet: the statement does not say which way they must go"}
 	if ctx.Replay != "" {
-		var p ssoP
-		if err := loadReplay(ctx.Replay, &p); err != nil {
+		var rp c06Replay
+		if err := loadReplay(ctx.Replay, &rp); err != nil {
 			fmt.Println("replay:", err)
 			return 2
 		}
+		p := rp.P
 		v := c06Judge(p)
+		if rp.Mode != "" {
+			v = c06History(p, rp.Mode)
+		}
 		fmt.Printf("replay C06: %+v -> class=%s clauses=%v detail=%v\n", p, v.Class, v.Clause, v.Detail)
 		if len(v.Clause) > 0 {
 			fmt.Printf("VIOLATION property=C06 replay=%s\n", ctx.Replay)
@@ -171,11 +220,39 @@ func runC06(ctx Ctx) int {
 		it := items[i]
 		v := c06Judge(it.p)
 		run.Evaluations.Add(1)
+		run.Transitions.Add(1)
 		run.Outcome(v.Class)
 		for _, c := range v.Clause {
-			run.Violate(c, "sso", it.labels, v.Detail, it.p)
+			run.Violate(c, "sso", it.labels, v.Detail, c06Replay{P: it.p})
 		}
 	})
+	// histories on one provider: (valid request) ; [unregister SP A] ; p  — for every k<=1 message shape x config
+	var hist []item
+	c06Cfg.EnumFull(func(cv []int) bool {
+		cp := ssoFromVec(c06Cfg, cv)
+		c06Msg.EnumK(1, func(mv []int) bool {
+			p := ssoFromVec(c06Msg, mv)
+			p.IssuerCfg, p.SSOEp, p.Transport = cp.IssuerCfg, cp.SSOEp, cp.Transport
+			if c06Valid(p) {
+				hist = append(hist, item{p, c06Labels(c06Cfg, c06Msg, cv, mv)})
+			}
+			return true
+		})
+		return true
+	})
+	_, complete2 := parallel(2*len(hist), deadline, func(i int) {
+		it := hist[i/2]
+		mode := []string{"primed", "unregistered"}[i%2]
+		v := c06History(it.p, mode)
+		run.Evaluations.Add(1)
+		run.Transitions.Add(2)
+		run.Outcome(v.Class)
+		for _, c := range v.Clause {
+			run.Violate(c, "sso", append([]string{"history=" + mode}, it.labels...), v.Detail, c06Replay{P: it.p, Mode: mode})
+		}
+	})
+	complete = complete && complete2
+	run.Set("histories", 2*len(hist))
 	run.Sample(items[0].p)
 	run.Sample(items[len(items)/2].p)
 	run.Sample(items[len(items)-1].p)
